@@ -371,7 +371,11 @@ func (e *Engine) call(fr *Frame, st *State, reach Term, site ssa.Instruction, c 
 			for _, dm := range e.deferredUnlocks(st) {
 				cond = Or(cond, Eq(dm, m))
 			}
-			e.oblige("lock.release", "lock.defer@"+label, "a lock taken by this function is held across the call to "+id+" without a deferred Unlock (a panic in the callee leaks the lock)", reach, cond, nil)
+			when := st.acqWhen[k]
+			if when.S == "" {
+				when = True
+			}
+			e.oblige("lock.release", "lock.defer@"+label, "a lock taken by this function is held across the call to "+id+" without a deferred Unlock (a panic in the callee leaks the lock)", And(reach, when), cond, nil)
 		}
 	}
 	if c.IsInvoke() {
@@ -1350,7 +1354,15 @@ func (e *Engine) lockPrimitive(st *State, reach Term, id string, args []Val, lab
 		if st.acquired == nil {
 			st.acquired = map[string]Term{}
 		}
+		if st.acqWhen == nil {
+			st.acqWhen = map[string]Term{}
+		}
 		st.acquired[m.S] = m
+		if old, ok := st.acqWhen[m.S]; ok {
+			st.acqWhen[m.S] = Or(old, reach)
+		} else {
+			st.acqWhen[m.S] = reach
+		}
 	}
 	switch op {
 	case "Lock":
